@@ -5,6 +5,7 @@ package consistenthash
 // Contracts for the deductive verifier in /verif (govc); comments only. Properties C13 (never crashes,
 // error only when the ring is empty) and C14 (number of virtual nodes per endpoint).
 //
+//@ pred ringKeys(c) = forall j {c.sortedKeys[j]} :: (0 <= j && j < len(c.sortedKeys)) ==> haskey(c.hashRing, c.sortedKeys[j])
 //@ pred chInv(c) = c != nil && c.mapValues != nil && c.hashRing != nil && c.hash != nil
 //
 //@ func (hash).Hash
@@ -61,6 +62,7 @@ package consistenthash
 //@   requires c != nil
 //@   modifies elems(c.sortedKeys)
 //@   ensures [C13] hdr(c.sortedKeys) == old(hdr(c.sortedKeys))
+//@   ensures [C14] old(ringKeys(c)) ==> ringKeys(c)
 //@   safety [C13]
 //
 //@ func (*ConsistentHash).addLocked
@@ -88,7 +90,9 @@ package consistenthash
 //@   modifies c.sortedKeys
 //@   allocates
 //@   ensures [C13] chInv(c) && (cap(c.sortedKeys) == 0 || fresh(c.sortedKeys))
+//@   ensures [C14] ringKeys(c)
 //@   loop 0 invariant chInv(c) && (cap(c.sortedKeys) == 0 || fresh(c.sortedKeys)) && (objof(c.sortedKeys) == objof(atentry(0, c.sortedKeys)) || loopfresh(0, c.sortedKeys))
+//@   loop 0 invariant [C14] ringKeys(c)
 //@   loop 0 modifies c.sortedKeys, elems(c.sortedKeys)
 //@   safety [C13]
 //
